@@ -573,7 +573,7 @@ func main() {
 		r.Set("suite_B_bounds", map[string]interface{}{
 			"fork_point_heights": "5..10 (first divergent block at every height of periods 2-3)", "arm_tip_height": E,
 			"arm_vote_patterns": fmt.Sprintf("all 2^min(armlen,%d), bit j mod %d decides arm block j", armBits, armBits),
-			"arm_clocks":        "A: 600 s step; B: 600 s step or 2400 s step", "prefix_vote_patterns": prefixes,
+			"arm_clocks":        "A: 600 s step; B: 600 s step, or first block at MTP(fork point)+1 and then a 2400 s step; the active-chain view sits on one of the two arm tips (alternating)", "prefix_vote_patterns": prefixes,
 			"query_points": "tip A, tip B, fork point, last period boundary below tip B (thorough: also the one below tip A)", "orders": len(perms(nq)),
 			"definition_sets": len(defsB), "units": len(units), "vote_kind_pairs": len(kinds),
 		})
